@@ -364,7 +364,45 @@ def replay(path):
     return 1 if v['replay'] else 0
 
 
+def sweep(seed, count, nrand=6, eager=10, features=None, collab=None):
+    """development aid: random programs of one seed, all clauses, aggregated by program"""
+    from harness import gen
+    jobs = []
+    for i in range(count):
+        kw = {}
+        if features is not None:
+            kw['features'] = features
+        p = gen.random_program(seed, i, **kw)
+        if collab:
+            p['collab'] = collab
+        jobs.append((p['name'], p, base_cfgs(seed, nrand, eager)))
+    parts = chunks(jobs, NWORKERS * 2)
+    agg = {}
+    n = 0
+    with concurrent.futures.ProcessPoolExecutor(NWORKERS) as pool:
+        for res in pool.map(work, parts):
+            n += res['n']
+            for e in res['errors']:
+                print('HARNESS-ERROR', e[-800:])
+            for v in res['viol']:
+                key = (v['prog'], tuple(sorted({c for c, _ in v['clauses']})))
+                agg.setdefault(key, []).append(v)
+    print('sweep seed=%d programs=%d executions=%d violating (program, clause-set) pairs=%d' % (seed, count, n, len(agg)))
+    os.makedirs(os.path.join(ROOT, 'replays'), exist_ok=True)
+    for (prog, cl), vs in sorted(agg.items()):
+        p = [j[1] for j in jobs if j[0] == prog][0]
+        path = os.path.join(ROOT, 'replays', 'sweep_%s_%d.json' % (prog, abs(hash(cl)) % 1000))
+        with open(path, 'w') as f:
+            json.dump({'property': 'sweep', 'program': p, 'cfg': vs[0]['cfg'], 'clauses': vs[0]['clauses']}, f)
+        print(prog, ','.join(cl), 'x%d' % len(vs), path)
+    return 0
+
+
 def main(argv):
+    if argv and argv[0] == 'sweep':
+        feats = tuple(argv[3].split(',')) if len(argv) > 3 and argv[3] != '-' else None
+        collab = json.loads(argv[4]) if len(argv) > 4 else None
+        return sweep(int(argv[1]), int(argv[2]), features=feats, collab=collab)
     if len(argv) >= 2 and argv[0] == 'replay':
         return replay(argv[1])
     pid = argv[0]
